@@ -1,4 +1,5 @@
 //! rlverif - property-based verification harness for rateslib (see /verif/DESIGN.md).
+#![allow(unused_imports, dead_code, unused_variables, unused_mut)]
 pub mod engine;
 pub mod gen;
 pub mod model;
